@@ -21,3 +21,11 @@ Print Assumptions C03_search_is_walk_of_live_routes.
 (* regenerated from src/node/search.rs on every run: the order of attempts and the flag gates *)
 Check search_order_documented.
 Check model_kind_order.
+
+(* ---- for every history of operations on the model router ---- *)
+From WF Require Import Model.Router Proofs.ReachP.
+Theorem C03_reachable_search_is_documented_walk :
+  forall builtins (ops : list op) chk p,
+    rsearch chk (run builtins ops) p = W chk (routes_of (r_root (run builtins ops))) p.
+Proof. exact reachable_search_is_W. Qed.
+Print Assumptions C03_reachable_search_is_documented_walk.
